@@ -91,6 +91,7 @@ type FG struct {
 	R       map[int]string            // block index -> reachability term
 	edge    map[[2]int][]string       // (pred,succ) -> edge condition terms
 	endSt   map[int]*State
+	headSt  map[int]*State
 	heapSort map[string]string
 	heapTy   map[string]types.Type
 	nfresh  int
@@ -119,7 +120,7 @@ type FG struct {
 
 func newFG(g *Gen, fn *ssa.Function, c *Contract) *FG {
 	fg := &FG{g: g, fn: fn, c: c, sorts: newSorts(), declSet: map[string]bool{}, vals: map[ssa.Value]Val{},
-		R: map[int]string{}, edge: map[[2]int][]string{}, endSt: map[int]*State{}, heapSort: map[string]string{}, heapTy: map[string]types.Type{},
+		R: map[int]string{}, edge: map[[2]int][]string{}, endSt: map[int]*State{}, headSt: map[int]*State{}, heapSort: map[string]string{}, heapTy: map[string]types.Type{},
 		params: map[string]Val{}, loopOrd: map[int]int{}, loopBlocks: map[int]map[int]bool{}, usedAssumed: map[string]bool{},
 		strLits: map[string]string{}, applyDecl: map[string]bool{}, closures: map[ssa.Value]*closureInfo{}, pureAxiomDone: map[string]bool{}}
 	if fn != nil {
